@@ -421,9 +421,24 @@ func splitTopStr(s, sep string) []string {
 func positiveOf(cnd string) (string, bool) {
 	if strings.HasPrefix(cnd, "(") && matchingClose(cnd, 0) == len(cnd)-1 {
 		in := cnd[1 : len(cnd)-1]
-		if ps := splitTopStr(in, " ne "); len(ps) == 2 {
+		if ps := splitTopStr(in, " ne "); len(ps) == 2 && !strings.Contains(in, " && ") && !strings.Contains(in, " || ") {
 			return "(" + ps[0] + " eq " + ps[1] + ")", true
+		}
+		// the condition of a conditional is never a disjunction: (A || B) is the negation of (not(A) && not(B))
+		if ps := splitTopStr(in, " || "); len(ps) >= 2 {
+			for k := range ps {
+				ps[k] = negateAtom(strings.TrimSpace(ps[k]))
+			}
+			return rebuildInfix(strings.Join(ps, " && ")), true
 		}
 	}
 	return "", false
+}
+
+// negateAtom: the negation of an operand, with the negation pushed into it.
+func negateAtom(x string) string {
+	if strings.HasPrefix(x, "not(") && matchingClose(x, 3) == len(x)-1 {
+		return x[4 : len(x)-1]
+	}
+	return rebuild("not(", x)
 }
